@@ -35,7 +35,7 @@ CHECKS = {
         "symbolic variable per type - the text has the format's syntax and parses back to the same value. int8..int64/uint8..uint64/int/uint and bool: every value "
         "(wide integers split into digit-count x sign classes; quick runs a subset of the classes incl. the 10/19/20-digit ones, thorough all); UUID all 2^128; IPv4 all 2^32; MAC length 6 "
         "all 2^48; unix seconds/milli/micro/nano both directions (string forms and conv pairs end to end; the JSON NUMBER form in halves that meet at the decimal text: every canonical decimal of 1..19 digits decodes to exactly that instant, and every int64 instant is written as the JSON number of its unit count; that jx's number writer equals strconv's text is decided to 13 digits only); "
-        "json.EncodeDuration equals time.Duration.String for every int64; six IPv6 address shapes with symbolic groups; date / time / date-time through time.Format + time.Parse (json and conv): the decoding side for ALL texts of the format's shape (arbitrary digits, Z and +-hh:mm offsets) against the harness's own calendar rule, and the encode->decode composition for a symbolic instant per class of years (quick: year 2000 for date, 2000 UTC and 2024 at +05:30 / -08:00 for date-time, all 86400 seconds for time; thorough: every day of 0000..0100, 1601..2400 and 9901..9999, every second of 1601..2400) with the zone offset a concrete case parameter. "
+        "json.EncodeDuration equals time.Duration.String for every int64; six IPv6 address shapes with symbolic groups; date / time / date-time through time.Format + time.Parse (json and conv): the decoding side for ALL texts of the format's shape (arbitrary digits, Z and +-hh:mm offsets) against the harness's own calendar rule, and the encode->decode composition for a symbolic instant per class of years (quick: year 2000 for date, 2000 UTC and 2024 at +05:30 / -08:00 for date-time, all 86400 seconds for time; thorough: also the years 1999 and 0000 and a second zone offset) with the zone offset a concrete case parameter. "
         "NOT covered: floats, fractional seconds, custom layouts, duration decoding, URL, other IPv6 addresses, big.*, the jx number writer beyond 13 digits.",
    design="4 C13", technique="symbolic execution of go/ssa + SMT; wide div/mod chains via a self-checked bit-vector-to-integer translation"),
  "C18": dict(
